@@ -112,9 +112,12 @@ def run(ctx):
         if not ok:
             ctx.count("schemas_without_checked_witness")
             continue
-        pols = list(SR.POLICIES)
-        (k0, v0), log0 = SR.generate(s, SR.make_policy("lo", ctx.rnd))
-        pols += one_policies(len(log0), ctx.n(6, 40))
+        if valcases._size(w) > 100:
+            pols = ["lo", "rnd"]        # hundreds of elements: the size is the point, two passes suffice
+        else:
+            pols = list(SR.POLICIES)
+            (k0, v0), log0 = SR.generate(s, SR.make_policy("lo", ctx.rnd))
+            pols += one_policies(len(log0), ctx.n(6, 40))
         for pol in pols:
             c = gencorr.GenCase(s, pol)
             gencorr.run_real(c, ctx.rnd)
